@@ -54,7 +54,12 @@ P07(cf, op, call, xs, ret) ==
               \* message is model drift); the property is about the receipt number acted on
               [flags |-> (IF xs # <<>> /\ xs[1].seq \in {"PartialReversal", "PreAuthReversal"} /\ xs[1].val # <<>> /\ xs[1].val.receipt_no = <<op[call.tok]>>
                           THEN {} ELSE {"P07-wrong-receipt"})
-                         \cup (IF ~ret.ok /\ ret.err.class = "UnknownToken" THEN {"P07-open-token-refused"} ELSE {}),
+                         \cup (IF ~ret.ok /\ ret.err.class = "UnknownToken" THEN {"P07-open-token-refused"} ELSE {})
+                         \* "exactly that token's receipt number": no reversal of this call names the receipt of another open token
+                         \cup (IF \E k \in 1..Len(xs) : /\ xs[k].seq \in {"PartialReversal", "PreAuthReversal"} /\ xs[k].val # <<>>
+                                                         /\ \E t \in DOMAIN op \ {call.tok} :
+                                                              op[t] # op[call.tok] /\ xs[k].val.receipt_no = <<op[t]>>
+                               THEN {"P07-acts-on-another-token"} ELSE {}),
                open |-> Without(op, call.tok)]
     \* configure (and end of day in general) wipes the map at the moment it asks for pending pre-authorisations
     [] call.op \in {"configure", "new"} ->
